@@ -125,17 +125,15 @@ def clock_scenario(k, plan, exe, root):
     g.instantiate()
     abi = r.choice(['p1', 'un'])
     checks = []
-    for cid in (0, 1, 2, 3):
-        if cid < 2:
-            c0 = g.emit('C %d' % cid, 'hostclock')
+    # another thread consumes CPU time first: from then on the process CPU clock is well ahead of the calling thread's CPU clock
+    g.emit('B %d' % r.choice([25, 40]), 'burn')
+    for cid in (0, 1, 2, 3, 3, 2):
+        c0 = g.emit('C %d' % cid, 'hostclock')
         g.poke(0x300, b'\0' * 8)
         ic = g.call('clock_time_get', [cid, r.choice([0, 1, 1000, 10**9]), 0x300], abi=abi)
         dc = g.dump(0x300, 8)
-        if cid < 2:
-            c1 = g.emit('C %d' % cid, 'hostclock')
-            checks.append(('bracket', cid, c0, ic, dc, c1))
-        else:
-            checks.append(('ok', cid, None, ic, dc, None))
+        c1 = g.emit('C %d' % cid, 'hostclock')
+        checks.append(('bracket', cid, c0, ic, dc, c1))
     for cid in [4, 5, 1 << 31, 0xffffffff, r.randint(6, 1 << 30)]:
         ic = g.call('clock_time_get', [cid, 0, 0x300], abi=abi)
         checks.append(('einval', cid, None, ic, None, None))
